@@ -169,6 +169,20 @@ check("C19",
       "TLA+ transcription of numpy indexing + engine model; exhaustive expression enumeration (TLC) + trace validation",
       "DESIGN.md §4 C19")
 
+check("C20",
+      "Api.tla defines the configuration space (class of ill-posedness x position first/middle/last x value type x "
+      "container x mode, 540 applicable configurations) and the outcome the property demands (eager classes: the call "
+      "itself raises; shared energies: the first-order U block of the coupled offending pair raises, order zero is "
+      "answered; non-Hermitian symbolic term at order m: H_tilde[i,i,m] raises, orders not >= m are answered; raised "
+      "class in ValueError/TypeError/NotImplementedError; returned values finite). MC_Api (TLC) enumerates the space; "
+      "every configuration is instantiated inside a random valid 3-block problem and the logged outcomes of the "
+      "definition and of each request are judged by TLC (Trace_Api). Finiteness of well-posed runs is also a clause of "
+      "C01/C05 (a non-finite value cannot be abstracted and is reported there).",
+      "Trusted: TLC/SANY 1.8.0, Json module. Only requests that CERTAINLY need the ill-defined quantity are required to "
+      "be rejected; everything the property leaves open is accepted either way. quick samples <=14 configurations per "
+      "class, thorough runs all of them 4 times.",
+      "TLA+ configuration space enumerated by TLC, expected-outcome table as trace-validation oracle", "DESIGN.md §4 C20")
+
 ALL = [f"C{i:02d}" for i in range(1, 21)]
 
 
